@@ -181,6 +181,8 @@ class BaseWorklist(list):
             raise InvalidOperationError(
                 "DiTi type can only be switched at the beginning or after a Break/commit step. Read the docstring."
             )
+        if not isinstance(diti_index, (int, numpy.integer)) or isinstance(diti_index, bool) or diti_index < 0:
+            raise ValueError(f"Invalid diti_index: {diti_index}")
         self.append(f"S;{diti_index}")
         return
 
